@@ -10,6 +10,8 @@ CLAIMED = {
  "C07": ("exploration", "conservation monitor on every chunk acquisition under a limit (computed from the ledger, not from the arena's own counters); twin-run trace equality for the no-limit clause", "3/C07"),
  "C08": ("exploration", "self-reported byte counts compared with the allocator ledger after every call", "3/C08"),
  "C09": ("fault_enumeration", "enumerated global-allocator refusal schedules x histories; per-call monitors (no panic in try_, failure changes nothing, bounded retries) and op-by-op twin comparison try_ vs infallible", "3/C09"),
+ "C11": ("exploration", "drop ledger on the error value, closure-call counter, same-layout-again probe watched by the allocator ledger, shadow of blocks kept by the initialiser; systematic steering of the space left in the chunk", "3/C11"),
+ "C12": ("exploration", "Allocator-contract shadow model (fit, alignment, prefix preserved, zeroed tail, no overlap, error leaves block intact) + differential allocator_api2 Vec/Box vs std on the global allocator; Miri + ASan", "3/C12"),
  "C10": ("exploration", "chunk iterators compared with ledger order/extents and with the shadow of live blocks; exact tiling oracle on uniform histories", "3/C10"),
 }
 NOT_YET = {}
